@@ -6,6 +6,7 @@ TRUSTED_BASE = [
     "Lean compiler: the driver executable runs the compiled form of the definitions the theorems are about",
     "correspondence check (harness generators, canonical text form, line comparison): differential testing of model vs. real code, bounded by what is generated (see coverage.distribution)",
     "std Rc/Arc/Weak/RefCell/RwLock, ahash maps: modelled (keys instead of pointers, lists instead of Vec), not verified",
+    "serde_json: modelled at byte level for the document type of the harness (Model/Json.lean) and compared with the real parser/printer on raw bytes; serde_cbor: trusted to be the identity on well-typed documents, exercised on raw bytes for robustness only",
 ]
 
 EDGE_RULE = ("exhaustive: breadth-first exploration of the implementation's abstract state space (state = dump of all adjacency lists), "
@@ -77,7 +78,7 @@ _search("C05", ["c05"], [("GdslModel.Props.C05", "G.Dfs." + t) for t in ["path_s
         "Machine-checked proof (Lean 4) about the model of the recursive depth-first loops: search_path returns a walk of existing accepted edges from the root to the target that repeats no node, returns None only if the target is unreachable in the accepted graph (iff), search agrees, and fuel > |nodes| never runs out; for all graphs, filters and sizes. The model (order of exec/visited/push/target test, backtrack_edge_tree) is tied to all four flavours by exact correspondence on every connect sequence on <=3 nodes x roots x targets x reject sets and random graphs up to 40 nodes; the statement is also evaluated on the real paths by an independent reachability/simple-path oracle.",
         "Lean 4 proof (closure invariant, discovery-tree backtracking) + model/implementation correspondence + path oracle")
 _search("C06", ["c06"], [("GdslModel.Props.C06", "G." + t) for t in ["Heap.push_heap", "Heap.pop_max", "Heap.pop_none", "Pfs.log_erases", "Pfs.pop_minimal", "Pfs.pending_are_discovered", "Pfs.path_sound", "Pfs.path_complete", "Pfs.search_iff", "Pfs.fuel_enough", "NodeOrd.eq_key", "NodeOrd.cmp_value"]],
-        "Machine-checked proof (Lean 4): the transcription of std's BinaryHeap (push = sift_up, pop = swap-last + sift_down_to_bottom + sift_up, right child on ties) keeps the heap order and pops a maximal element; along the priority-first loop (ghost log proved to erase to the executed loop) every expansion pops an element that no pending (discovered, unexpanded) node beats, for min() (Reverse) and max(); paths are sound, None iff unreachable, search returns the target; comparison operators are the value order, equality is key equality. Tie-breaking of the real heap is matched exactly by the correspondence (all value assignments over {0,1,2} on small graphs, random beyond), and the discipline is re-derived from the callback trace of the real code by an oracle.",
+        "Machine-checked proof (Lean 4): the transcription of std's BinaryHeap (push = sift_up, pop = swap-last + sift_down_to_bottom + sift_up, right child on ties) keeps the heap order and pops a maximal element; along the priority-first loop (ghost log proved to erase to the executed loop) every expansion pops an element that no pending (discovered, unexpanded) node beats, for min() (Reverse) and max(); paths are sound, None iff unreachable, search returns the target; comparison operators are the value order, equality is key equality (and Edge comparison as the code has it: == on the endpoints in digraph, on the value in the undirected flavours, order by value). Tie-breaking of the real heap is matched exactly by the correspondence (all value assignments over {0,1,2} on small graphs, random beyond), and the discipline is re-derived from the callback trace of the real code by an oracle.",
         "Lean 4 proof (binary-heap invariants, ghost-log loop invariant) + model/implementation correspondence incl. heap tie order + trace-discipline oracle")
 _search("C07", ["c07"], [("GdslModel.Props.C07", "G." + t) for t in ["Trace.search_sees_all", "Trace.order_sees_all", "Trace.true_endpoints", "Trace.order_true_endpoints", "Filter.excluded", "Filter.order_excluded", "Filter.as_subgraph", "Filter.order_as_subgraph"]],
         "Machine-checked proof (Lean 4) for all six traversal kinds of the model: without target and filter the sequence of edges handed to the closure is a permutation of the edges (with multiplicity) leaving the nodes reachable from the root; every traced edge is an element of its source's iterated list with its stored value; the edge tree (hence every path, cycle, ordering) contains accepted edges only; a filtered run equals the unfiltered run on the accepted subgraph. Tied to the four flavours by exact correspondence of the callback traces (for_each and every reject set on small graphs) and a multiset oracle on the real traces.",
@@ -101,11 +102,11 @@ _CONT = {
          "Machine-checked proof (Lean 4) of Kosaraju's algorithm as implemented (first pass: postorder forest threaded through the visited filter in hash-map order; second pass: transposed preorder among unassigned nodes in decreasing finishing position): for every iteration order of a closed container the result is a partition of the members, two nodes share a component exactly when each reaches the other, and as a set of sets it does not depend on the order - via the component-root lemma on the non-deterministic DFS relation. Tied to digraph/sync_digraph by exact correspondence under the annotated hash order (all digraphs on <=3 (quick) / <=4 (thorough) nodes x 4 container instances and insertion orders, random to 30 nodes) and a mutual-reachability partition oracle on the real output.",
          "Lean 4 proof of Kosaraju (component-root lemma, two-pass invariants, every iteration order) + model/implementation correspondence under observed hash order + partition oracle"),
  "C12": ([("GdslModel.Props.C12", "G.Serde." + t) for t in ["roundtrip", "roundtrip_inn", "nonmember_error"]],
-         "Machine-checked proof (Lean 4) that, for every iteration order of the hash map, rebuilding the decomposition of a closed container yields the same keys and node values, every member's outgoing (directed) / outbound half-edge (undirected) list exactly and in order, a mirrored store, and per source the same incoming values (hence the same multiset of incident edges); a non-member neighbour makes the document undeserialisable. JSON/CBOR byte formats are trusted to be the identity on the pair of lists; the real serde_json/serde_cbor round trips of all four containers are compared with the model (all connect sequences on <=3 nodes, random to 40 nodes) and checked by a structural-equality oracle.",
-         "Lean 4 proof (decompose/rebuild round trip for every iteration order) + model/implementation correspondence through real serde_json and serde_cbor + structural oracle"),
+         "Machine-checked proof (Lean 4) that, for every iteration order of the hash map, rebuilding the decomposition of a closed container yields the same keys and node values, every member's outgoing (directed) / outbound half-edge (undirected) list exactly and in order, a mirrored store, and per source the same incoming values (hence the same multiset of incident edges); a non-member neighbour makes the document undeserialisable. The JSON byte format is inside the model for the payload types of the harness (Model/Json.lean: the writer print, the reader parse; parse (print d) = some d and the whole byte-level round trip are theorems, and the bytes serde_json writes are compared with print on every case); the CBOR byte format is trusted to be the identity on the pair of lists; the real serde_json/serde_cbor round trips of all four containers are compared with the model (all connect sequences on <=3 nodes, random to 40 nodes) and checked by a structural-equality oracle.",
+         "Lean 4 proof (decompose/rebuild round trip for every iteration order; byte-level JSON writer/reader round trip) + model/implementation correspondence through real serde_json and serde_cbor + structural oracle"),
  "C13": ([("GdslModel.Props.C13", "G.Serde." + t) for t in ["undeclared_is_error", "first_key_wins", "ok_is_wellformed"]],
-         "Machine-checked proof (Lean 4) about the structural layer of deserialisation (the visitor over the two lists): an error exactly when an edge names an undeclared key; repeated keys keep the first declaration; an Ok graph is mirrored, its nodes come from the document and every node's lists are exactly the listed edges in document order; the function has no panic outcome. Byte-level parsing (serde_json/serde_cbor recursion limits, error paths) is outside the model: for documents the harness cannot type, the check is validation only (no panic, Err or an Ok graph satisfying the invariants), stated in the evidence.",
-         "Lean 4 proof of the structural layer + correspondence on all single structural mutations of seed documents (JSON and CBOR) + robustness validation on random byte mutations"),
+         "Machine-checked proof (Lean 4) about the structural layer of deserialisation (the visitor over the two lists): an error exactly when an edge names an undeclared key; repeated keys keep the first declaration; an Ok graph is mirrored, its nodes come from the document and every node's lists are exactly the listed edges in document order; the function has no panic outcome. At byte level the JSON reader is inside the model (Model/Json.lean, for K=usize, N=i64, E=u32): deJson is a total function of the bytes (no panic outcome), everything it accepts is in range and goes through the visitor (de_ok_wellformed, de_error_iff), white space around a document is irrelevant, and no proper prefix of a written document is accepted (truncated_is_error); that serde_json accepts exactly this language is the correspondence on raw bytes (every single white-space/number-literal/punctuation/truncation/trailing edit of seed documents plus random byte edits, compared exactly). CBOR byte-level parsing (serde_cbor) is outside the model: raw CBOR documents (every item header x boundary arguments, widths, major types, indefinite lengths, reserved values, tags; truncations; random edits) are validation only (no panic, no abort, Err or an Ok graph satisfying the invariants), stated in the evidence.",
+         "Lean 4 proof of the structural layer and of the byte-level JSON reader + exact correspondence on structural mutations (JSON and CBOR) and on raw JSON bytes + robustness validation on raw CBOR bytes"),
  "C18": ([("GdslModel.Props.C18", "G.Cont." + t) for t in ["insert_spec", "remove_spec", "nodup_insert", "nodup_remove", "len_insert", "len_remove", "order_spec", "views", "root_iff_no_member_edge", "dot_lines"]],
          "Machine-checked proof (Lean 4) that the container model refines a key set (insert adds iff absent and otherwise changes nothing, remove/contains/len are the map's, an accepted iteration order lists each member once), that roots/leaves/orphans are exactly the members without incoming/outgoing/any edge (and, with the mirror invariant, describe the edge set from both ends), and that the DOT exports have one node statement per member and one edge statement per iterated edge. Nodes are keys in the model, so 'hands out the inserted nodes themselves' is validated, not proved: container histories interleaved with edge operations through container handles are compared call by call with the model and with an independent reference map; DOT text is compared exactly under the annotated hash order and as a multiset of lines.",
          "Lean 4 refinement proof (container = key set; views; DOT line structure) + model/implementation correspondence of container histories + reference-map and DOT oracles"),
